@@ -387,6 +387,20 @@ static void gen_pool(int maxpool)
 					r->socket = &socks[vh_rn(3)];
 					break;
 				}
+				if (r->prefix.ver == LRTR_IPV6 && r->min_len >= 64 && vh_chance(50)) {
+					/* another prefix of the same length whose address differs from the earlier one by the very same bit
+					 * pattern in two 32-bit words */
+					uint32_t pat = 1u << vh_rn(32);
+
+					if (vh_chance(50))
+						pat |= 1u << vh_rn(32);
+					r->prefix.u.addr6.addr[0] ^= pat;
+					r->prefix.u.addr6.addr[1] ^= pat;
+					if (r->min_len == 128 && vh_chance(50)) {
+						r->prefix.u.addr6.addr[2] ^= pat;
+						r->prefix.u.addr6.addr[3] ^= pat;
+					}
+				}
 			}
 			npool++;
 		}
@@ -461,8 +475,56 @@ static void reload_sequence(void)
 	op_free(2, true);
 	op_enum(1);
 }
+/* one record per prefix length along one address (1..K), inserted in scrambled order: tries deeper than a machine word */
+static void deep_chain_episode(void)
+{
+	int fam = vh_chance(75) ? 6 : 4;
+	unsigned int maxb = fam == 4 ? 32 : 128;
+	unsigned int k = fam == 4 ? 32 : 36 + vh_rn(93);
+	struct lrtr_ip_addr base;
+
+	rand_addr(&base, fam);
+	asn_pool[0] = 0;
+	asn_pool[1] = 1;
+	asn_pool[2] = 65000;
+	for (int i = 3; i < 8; i++)
+		asn_pool[i] = vh_r32();
+	npool = 0;
+	for (unsigned int len = 1; len <= k && npool < MAXPOOL; len++) {
+		struct pfx_record *r = &pool[npool++];
+
+		memset(r, 0, sizeof(*r));
+		r->prefix = base;
+		mask_addr(&r->prefix, len);
+		r->min_len = len;
+		r->max_len = vh_chance(50) ? len : len + vh_rn(maxb - len + 1);
+		r->asn = asn_pool[1 + vh_rn(7)];
+		r->socket = &socks[vh_rn(3)];
+	}
+	op_init(1, true);
+	for (int i = npool - 1; i > 0; i--) { /* scrambled insertion order */
+		int j = vh_rn(i + 1);
+		struct pfx_record tmp = pool[i];
+
+		pool[i] = pool[j];
+		pool[j] = tmp;
+	}
+	for (int i = 0; i < npool; i++)
+		op_add(1, &pool[i]);
+	rand_query(1, 40);
+	for (int i = 0; i < npool; i += 2)
+		op_rm(1, &pool[i]);
+	rand_query(1, 40);
+	op_enum(1);
+	op_free(1, false);
+	op_reset();
+}
 static void episode(int nops, int maxpool)
 {
+	if (maxpool > 24 && vh_chance(50)) {
+		deep_chain_episode();
+		return;
+	}
 	gen_pool(maxpool);
 	op_init(1, true);
 	for (int i = 0; i < nops; i++) {
